@@ -411,7 +411,7 @@ def run():
                 bounds=dict(quick='LRU x 2 start states (max_size 3: full / not full) + LRI x full; on_miss None; 20 ops as A x 14 ops as B; every line '
                                   'event k of A',
                             thorough='LRI+LRU x 4 start states x on_miss in {None, k*2} (first state) x 22x22 op pairs x every line event; '
-                                     'every opcode event for the first start state'))
+                                     'every opcode (bytecode) event for the first start state (14 ops as B)'))
     ops = OPS if H.thorough else [o for o in OPS if o[0] not in QUICK_SKIP]
     plans = []
     for cname in ('LRI', 'LRU'):
@@ -438,7 +438,7 @@ def run():
         st['ops_not_in_one_critical_section'] = sorted(o for o, n in regions.items() if n != 1)
         for op1 in good:
             f1 = cfg.fn(op1)
-            for op2 in [o for o in good if H.thorough or o[0] not in QUICK_SKIP_B]:
+            for op2 in [o for o in good if (H.thorough and event == 'line') or o[0] not in QUICK_SKIP_B]:
                 f2 = cfg.fn(op2)
                 if H.out_of_time(frac):
                     H.note_truncated('%s: stopped at op pair (%s, %s) by time budget' % (part, op1[0], op2[0]))
